@@ -216,6 +216,8 @@ BAD_SER = [({'scale': 0}, 'all'), ({'scale': -1}, 'all'), ({'scale': -0.5}, 'all
            ({'light': '#gggggg'}, 'color'), ({'dark': '#1234567'}, 'color'), ({'dark': (1, 2)}, 'color'),
            ({'dark': (1, 2, 3, 4, 5)}, 'color'), ({'dark': (300, 0, 0)}, 'color'), ({'light': (-1, 0, 0)}, 'color'),
            ({'dark': '#'}, 'color'), ({'light': 'rgb(1,2,3)'}, 'color'),
+           ({'dark': '#36c\n'}, 'color'), ({'light': '3366cc\n'}, 'color'), ({'dark': ' red'}, 'color'), ({'dark': '#36c '}, 'color'),
+           ({'light': 'red\n'}, 'color'), ({'dark': '#3366CC80\n'}, 'color'),
            # a colour with a non-opaque alpha channel handed to a writer without alpha support is neither honoured nor
            # well-formed for that writer: it must be refused, not silently flattened ("honoured or refused")
            ({'dark': '#11223380'}, 'noalpha'), ({'light': '#1238'}, 'noalpha'), ({'dark': (10, 20, 30, 128)}, 'noalpha'),
